@@ -88,8 +88,10 @@ def cases(tier, seed):
             mats = CONT_SIMS[sim][2]
             for mat in ([mats[0]] if tier == "quick" else [m for m in mats if m not in ("hetero", "khet")]):
                 for thick in (["t037"] if tier == "quick" else list(THICK)):
-                    out.append({"kind": "cont", "sim": sim, "elemType": list(pair), "mesh": "mixed", "mat": mat,
-                                "thick": thick, "rho": "r25"})
+                    # both orders of the two element groups in the mesh (the order in which a user merges / lists the parts)
+                    for ml in ("mixed", "mixed_rev"):
+                        out.append({"kind": "cont", "sim": sim, "elemType": list(pair), "mesh": ml, "mat": mat,
+                                    "thick": thick, "rho": "r25"})
     for sim, d in BEAM_DIMS.items():
         for th in BEAM_THEORIES:
             for n in (2, 3, 4, 5):
@@ -449,7 +451,7 @@ def build_cont_mesh(et, letter):
             zm = Z.template_2d(ets, k=2, diag=2, size=size)
         elif base == "distort":
             zm = Z.template_2d(ets, k=2, distort=True, size=size)
-        elif base == "mixed":
+        elif base in ("mixed", "mixed_rev"):
             zm = Z.template_2d(ets, k=2, size=size)
         else:
             raise KeyError(letter)
@@ -463,13 +465,15 @@ def build_cont_mesh(et, letter):
             zm = Z.template_3d(ets, k=2, size=size)
         elif base == "distort":
             zm = Z.template_3d(ets, k=2, distort=True, size=size)
-        elif base == "mixed":
+        elif base in ("mixed", "mixed_rev"):
             zm = Z.template_3d(ets, k=2, size=size)
         else:
             raise KeyError(letter)
     if letter in ("mapped", "mapped_grid"):
         A, b = _affine(d, letter)
         zm = zm.mapped(A, b)
+    if base == "mixed_rev":
+        zm = Z.ZooMesh(zm.coords, dict(reversed(list(zm.groups.items()))), dict(zm.exact), zm.name + "|rev", zm.boundary)
     return zm, zm.build()
 
 
